@@ -185,8 +185,8 @@ def ds_droppable(ctx, rep):
             continue
         n += 1
         st = [e for e in p.calls() if e.site is not None and ctx.prog.callee_body(e.site) is not None and ctx.prog.callee_body(e.site).path == stop.path]
-        good = len(st) == 1 and strip_wrap(st[0].args[0]) == ("field", ("param", 1), A.f_drop_inner) and not p.decisions
-        rep.check(good, "DS1", "drop-always-stops-inner", ctx.where(b), "drop calls stop() on the wrapped handle, unconditionally", "path [%s]: %d stop() call(s) on %s" % (p.describe(), len(st), [term_str(e.args[0]) for e in st]))
+        good = len(st) == 1 and strip_wrap(st[0].args[0]) == ("field", ("param", 1), A.f_drop_inner)  # on every path, whatever it branched on
+        rep.check(good, "DS1", "drop-always-stops-inner", ctx.where(b), "every path of drop calls stop() once on the wrapped handle", "path [%s]: %d stop() call(s) on %s" % (p.describe(), len(st), [term_str(e.args[0]) for e in st]))
     rep.floor("DS1", "paths through drop", n, 1)
     d = A.method("DroppableStore", "deref", "Deref")
     rt = ctx.paths(d).paths[0].ret
@@ -412,7 +412,7 @@ def ch_channeled(ctx, rep):
     sd = A.method("StoreImpl", "subscribed")
     p = ctx.paths(sd).paths[0]
     calls = [e for e in p.calls() if e.site is not None and ctx.prog.callee_body(e.site) is not None and ctx.prog.callee_body(e.site).path == sw.path]
-    good = len(calls) == 1 and ctx.const_lit(calls[0].args[1])[1] == ctx.const_lit(("const", "store::DEFAULT_CAPACITY", "usize"))[1] and calls[0].args[2][0] == "agg" and calls[0].args[2][1].endswith("BackpressurePolicy::BlockOnFull") and calls[0].args[3] == ("param", 2)
+    good = len(calls) == 1 and ctx.const_lit(calls[0].args[1])[1] == ctx.const_lit(("const", "store::DEFAULT_CAPACITY", "usize"))[1] and (ctx.enum_variant(calls[0].args[2]) or "").endswith("BackpressurePolicy::BlockOnFull") and calls[0].args[3] == ("param", 2)
     rep.check(good, "R5", "subscribed-defaults", ctx.where(sd), "subscribed() = subscribed_with(DEFAULT_CAPACITY, BlockOnFull, subscriber)", "subscribed() passes %s" % [term_str(a) for e in calls for a in e.args])
     # the channel of subscribed_with uses the caller's capacity and policy
     ctor = [e for e in evs.values() if A.is_chan_ctor_call(e.site)]
